@@ -352,7 +352,13 @@ func runC19Reads(t fataler, c c19Case, concurrent bool) (string, c19Result) {
 				setFail(fmt.Sprintf("read %d: document %q is not valid JSON for target %s (%v) but wsjson.Read returned nil", i, trunc(r.Doc), r.Target, refErr))
 				return
 			}
-			// the connection is closed with status 1007
+			// the connection is closed with status 1007 - by the time wsjson.Read has returned: an
+			// application that reacts to the error by dropping the connection at once (as the package's
+			// examples do) must not be able to get in front of that Close frame
+			if (i+len(r.Doc))%2 == 0 {
+				dd := e.Call(func() { lc.C.CloseNow() })
+				within(dd, 30*time.Second)
+			}
 			lc.Peer.waitOpcode(ref.OpClose, 10*time.Second)
 			frames, _ := lc.Peer.snapshot()
 			saw := false
@@ -439,9 +445,17 @@ func trunc(b []byte) string {
 	return string(b)
 }
 
+var c19AsymModes = []c03Mode{
+	{"server/ct+server_no_ctx-offer", false, websocket.CompressionContextTakeover, "permessage-deflate; server_no_context_takeover"},
+	{"server/ct+client_no_ctx-offer", false, websocket.CompressionContextTakeover, "permessage-deflate; client_no_context_takeover"},
+	{"client/ct+client_no_ctx-resp", true, websocket.CompressionContextTakeover, "permessage-deflate; client_no_context_takeover"},
+	{"client/ct+server_no_ctx-resp", true, websocket.CompressionContextTakeover, "permessage-deflate; server_no_context_takeover"},
+}
+
 func genC19(rt *rapid.T) c19Case {
 	var c c19Case
-	c.Mode = rapid.SampledFrom(c16Modes).Draw(rt, "mode")
+	// (role, compression) settings incl. agreements in which only one direction keeps its context
+	c.Mode = rapid.SampledFrom(append(append([]c03Mode(nil), c16Modes...), c19AsymModes...)).Draw(rt, "mode")
 	c.Conns = rapid.IntRange(1, 3).Draw(rt, "nConns")
 	n := rapid.IntRange(2, 8).Draw(rt, "nReads")
 	for i := 0; i < n; i++ {
